@@ -20,10 +20,15 @@ def warm():
         _mods["ips"] = infinitephasescreen
         _mods["ps"] = phasescreen
         _mods["pc"] = profile_compression
-        infinitephasescreen.PhaseScreenVonKarman(8, 0.1, 0.2, 5.0, random_seed=1).add_row()
-        infinitephasescreen.PhaseScreenKolmogorov(5, 0.1, 0.2, 5.0, random_seed=1, stencil_length_factor=2).add_row()
-        h = numpy.arange(6.) * 1000
-        profile_compression.optimal_grouping(1, 2, h, numpy.ones(6))
+        # JIT warm-up, best effort: a tree under test may fail here, that is for the checks to find, not for warm()
+        for job in (lambda: infinitephasescreen.PhaseScreenVonKarman(8, 0.1, 0.2, 5.0, random_seed=1).add_row(),
+                    lambda: infinitephasescreen.PhaseScreenKolmogorov(5, 0.1, 0.2, 5.0, random_seed=1, stencil_length_factor=2).add_row(),
+                    lambda: profile_compression.optimal_grouping(1, 2, numpy.arange(6.) * 1000, numpy.ones(6))):
+            try:
+                numpy.random.seed(12345)
+                job()
+            except Exception:
+                pass
     return _mods
 
 
